@@ -34,7 +34,7 @@ func awaitErr(err error) string {
 
 func init() {
 	sections["await"] = func(c *Ctx) error {
-		c.Rep.Rule = "sequential: random save/remove/read sequences over 3 addresses and 8 transactions (incl. issuer==receiver, removal by non-receivers, repeated saves, reads of unknown addresses), each result vs model and vs a map-based reference; concurrent: 8 goroutines saving distinct transactions to one receiver + mixed save/remove/read rounds, final listings vs reference; non-trivial = distinct (op, arguments, result)"
+		c.Rep.Rule = "sequential: random save/remove/read sequences over 3 addresses and 8 transactions (incl. issuer==receiver, removal by non-receivers, repeated saves, reads of unknown addresses), each result vs model and vs a map-based reference; concurrent: 8 goroutines saving distinct transactions to one receiver + mixed save/remove/read rounds, and saver + save/remove cycler + polling readers on one address, final listings vs reference; non-trivial = distinct (op, arguments, result)"
 		w := NewWorld(c)
 		w.quiet = true
 		for i := 0; i < 3; i++ {
@@ -185,6 +185,88 @@ func init() {
 			}
 			hc.Close()
 		}
+		// ---- three-way: a saver of transactions that are never removed, a save-then-remove cycler and a
+		// polling reader, all on one issuer address (the reader's lazy clean-up writes the list too)
+		// sized so that no bigcache shard log wraps: capacity eviction (the oldest entries of a shard
+		// are dropped when its log is full, whoever they belong to) is not what the property is about
+		tw := 12
+		if c.Tier == "thorough" {
+			tw = 120
+		}
+		for r := 0; r < tw; r++ {
+			hc, err := cache.New(1000, 1024)
+			if err != nil {
+				return err
+			}
+			iss, rec := w.wallets[1], w.wallets[0]
+			const keepN, cycleN = 60, 60
+			var keep, cyc []transaction.Transaction
+			for i := 0; i < keepN; i++ {
+				keep = append(keep, w.NewTrx(iss, rec.Address(), spice.Melange{}, []byte{byte(i), byte(i >> 8), byte(r), 1}))
+			}
+			for i := 0; i < cycleN; i++ {
+				cyc = append(cyc, w.NewTrx(iss, rec.Address(), spice.Melange{}, []byte{byte(i), byte(i >> 8), byte(r), 2}))
+			}
+			var wg sync.WaitGroup
+			stop := make(chan struct{})
+			wg.Add(2)
+			go func() {
+				defer wg.Done()
+				for i := range keep {
+					hc.SaveAwaitedTransaction(&keep[i])
+				}
+			}()
+			go func() {
+				defer wg.Done()
+				for i := range cyc {
+					hc.SaveAwaitedTransaction(&cyc[i])
+					hc.RemoveAwaitedTransaction(cyc[i].Hash, rec.Address())
+				}
+			}()
+			var rg sync.WaitGroup
+			for k := 0; k < 2; k++ {
+				rg.Add(1)
+				go func(k int) {
+					defer rg.Done()
+					for {
+						select {
+						case <-stop:
+							return
+						default:
+							hc.ReadTransactions([]string{iss.Address(), rec.Address()}[k])
+						}
+					}
+				}(k)
+			}
+			wg.Wait()
+			close(stop)
+			rg.Wait()
+			checked++
+			c.Rep.Evals++
+			for _, who := range []string{iss.Address(), rec.Address()} {
+				got, _ := hc.ReadTransactions(who)
+				have := map[[32]byte]bool{}
+				for _, t := range got {
+					have[t.Hash] = true
+				}
+				missing, extra := 0, len(got)
+				for _, t := range keep {
+					if have[t.Hash] {
+						extra--
+					} else {
+						missing++
+					}
+				}
+				if missing != 0 || extra != 0 {
+					lost++
+					c.Violate("C17", "concurrent-read-save-remove-lost-update", fmt.Sprintf("saver + save/remove cycler + polling reader on one address: %d of %d saved and never removed transactions are not listed, %d removed ones still are (round %d)", missing, keepN, extra, r),
+						map[string]interface{}{"section": "await", "scenario": "three-way", "round": r})
+					break
+				}
+			}
+			hc.Close()
+		}
+		c.Distinct("concurrent-three-way")
 		c.Rep.Extra["concurrent_rounds"] = checked
 		c.Rep.Extra["concurrent_rounds_with_lost_entries"] = lost
 		c.Distinct("concurrent")
